@@ -1,8 +1,10 @@
 """C02 - instant <-> civil datetime under a fixed offset (narrow)."""
 from ..rules_shape import floor_a, const_agree, req_dep, split_pipeline
+from ..rules_dep import run_dep
 
 
 def run(ctx, rep):
+    run_dep(ctx, rep, "C02")
     prog = ctx.prog("Q")
     rep.notes.append("Does not decide exactness of the decomposition for all values.")
     floor_a(ctx, rep)
